@@ -1330,11 +1330,11 @@ func runC03(c *Ctx) {
 	for i := c.Budget(50, 5000); i > 0; i-- {
 		c03HistSession(c)
 	}
-	for i := c.Budget(400, 40000); i > 0; i-- {
+	for i := c.Budget(260, 40000); i > 0; i-- {
 		c03RandomList(c, "pool", false)
 	}
 	for i := c.Budget(60, 8000); i > 0; i-- {
 		c03RandomList(c, "pool-big", true)
 	}
-	c03SharedRandom(c, c.Budget(60, 6000))
+	c03SharedRandom(c, c.Budget(40, 6000))
 }
